@@ -323,11 +323,17 @@ impl Walrus {
                 }
                 let mut aligned = rkyv::AlignedVec::with_capacity(meta_len);
                 aligned.extend_from_slice(&meta_buf[2..2 + meta_len]);
-                // SAFETY: `aligned` was constructed from a bounded metadata slice
-                // read from our file; alignment is ensured by `AlignedVec`.
-                // SAFETY: `aligned` is built from bounded bytes inside the block,
-                // copied into `AlignedVec` ensuring alignment for rkyv.
-                let archived = unsafe { rkyv::archived_root::<Metadata>(&aligned[..]) };
+                // Bytes from disk may be damaged: validate the archive instead of trusting
+                // it; a block whose first header is corrupt is skipped like one with a bad
+                // length prefix.
+                let archived = match rkyv::check_archived_root::<Metadata>(&aligned[..]) {
+                    Ok(a) => a,
+                    Err(_) => {
+                        block_offset += DEFAULT_BLOCK_SIZE;
+                        next_block_id += 1;
+                        continue;
+                    }
+                };
                 let md: Metadata = match archived.deserialize(&mut rkyv::Infallible) {
                     Ok(m) => m,
                     Err(_) => {
